@@ -230,3 +230,54 @@ Proof.
   pose proof (tsum_ge_In r _ _ _ Hk). pose proof (msum_ge_In _ _ _ Hr).
   destruct (Hp _ _ Hk) as [P _]. specialize (P _ _ Hr). lia.
 Qed.
+
+(* ---------- chain level: every balance key is a non-OP_RETURN output of an indexed transaction ---------- *)
+Definition key_ok (txs : list txm) (k : outpoint) : Prop :=
+  exists tx, In tx txs /\ tx_id tx = fst k /\ nth (N.to_nat (snd k)) (tx_outs tx) true = false.
+
+Lemma key_ok_mono txs txs' k : (forall x, In x txs -> In x txs') -> key_ok txs k -> key_ok txs' k.
+Proof. intros H [tx [H1 H2]]. exists tx. split; [apply H; exact H1|exact H2]. Qed.
+
+Lemma index_txs_keys height time minimum txs : forall txi u u',
+  index_txs height time minimum txi u txs = Ok u' -> tpos (s_balances (u_st u)) ->
+  forall k, alookup op_eqb k (s_balances (u_st u')) <> None ->
+    alookup op_eqb k (s_balances (u_st u)) <> None \/ key_ok txs k.
+Proof.
+  induction txs as [|tx txs IH]; intros txi u u' Q Hp k Hk; cbn [index_txs] in Q; [ok_inj; left; exact Hk|].
+  bind_inv Q as u1 H1. pose proof (index_runes_shape _ _ _ _ _ _ _ H1 Hp) as [Hp1 K1].
+  destruct (IH _ _ _ Q Hp1 k Hk) as [H|H].
+  - destruct (K1 k H) as [H'|[H2 H3]]; [left; exact H'|right]. exists tx. split; [left; reflexivity|]. split; [symmetry; exact H2|exact H3].
+  - right. eapply key_ok_mono; [|exact H]. intros x Hx. right. exact Hx.
+Qed.
+
+Lemma index_block_keys first height st b st' :
+  index_block first height st b = Ok st' -> tpos (s_balances st) ->
+  forall k, alookup op_eqb k (s_balances st') <> None ->
+    alookup op_eqb k (s_balances st) <> None \/ key_ok (b_txs b) k.
+Proof.
+  unfold index_block. destruct (height <? first); intros Q Hp k Hk; [ok_inj; left; exact Hk|].
+  bind_inv Q as u1 Htx. bind_inv Q as es1 Hup. ok_inj. cbn [set_entries s_balances] in Hk.
+  eapply index_txs_keys in Htx; [|exact Hp|exact Hk]. exact Htx.
+Qed.
+
+Fixpoint keys_ok_chain (seen : list txm) (bs : list block) (sts : list state) : Prop :=
+  match bs, sts with
+  | b :: bs', st :: sts' =>
+    (forall k, alookup op_eqb k (s_balances st) <> None -> key_ok (seen ++ b_txs b) k) /\
+    keys_ok_chain (seen ++ b_txs b) bs' sts'
+  | _, _ => True
+  end.
+
+Lemma index_chain_keys first bs : forall height st sts seen,
+  index_chain first height st bs = Ok sts -> tpos (s_balances st) ->
+  (forall k, alookup op_eqb k (s_balances st) <> None -> key_ok seen k) ->
+  keys_ok_chain seen bs sts.
+Proof.
+  induction bs as [|b bs IH]; intros height st sts seen Q Hp Hk; cbn [index_chain] in Q; [ok_inj; exact I|].
+  bind_inv Q as st1 Hblk. bind_inv Q as rest Hrest. ok_inj. cbn [keys_ok_chain].
+  assert (K : forall k, alookup op_eqb k (s_balances st1) <> None -> key_ok (seen ++ b_txs b) k).
+  { intros k H. destruct (index_block_keys _ _ _ _ _ Hblk Hp k H) as [H'|H'].
+    - eapply key_ok_mono; [|apply Hk; exact H']. intros x Hx. apply in_or_app. left. exact Hx.
+    - eapply key_ok_mono; [|exact H']. intros x Hx. apply in_or_app. right. exact Hx. }
+  split; [exact K|]. eapply IH; [exact Hrest|eapply index_block_tpos; eassumption|exact K].
+Qed.
